@@ -1,4 +1,612 @@
 package main
 
-func cmdCheck(args []string) int  { return 2 }
-func cmdReplay(args []string) int { return 2 }
+import (
+	"bytes"
+	"encoding/json"
+	"fmt"
+	"os"
+	"os/exec"
+	"path/filepath"
+	"regexp"
+	"sort"
+	"strconv"
+	"strings"
+	"time"
+
+	"gosym/internal/eng"
+)
+
+type HarnessSpec struct {
+	Pkg       string         `json:"pkg"`
+	Name      string         `json:"name"`
+	Solver    string         `json:"solver"`
+	Quick     map[string]int `json:"quick"`
+	Thorough  map[string]int `json:"thorough"`
+	Budget    int64          `json:"budget"`
+	MaxDec    int            `json:"maxdec"`
+	TimeoutMs int            `json:"timeout_ms"`
+	Hang      bool           `json:"hang"`       // unwound paths are hang candidates (replayed natively with a time limit)
+	Permute   bool           `json:"permute_maps"`
+	Tier      string         `json:"tier"`       // "" both, "thorough" only thorough
+	Merge     []string       `json:"merge"`      // extra merged callees
+	NoSlice   bool           `json:"no_slice"`
+	WallS     int            `json:"wall_s"`     // wall-clock cap (quick)
+	WallST    int            `json:"wall_s_thorough"`
+	Race      bool           `json:"race"`
+	What      string         `json:"what"`
+}
+
+type PropSpec struct {
+	Title       string        `json:"title"`
+	Harnesses   []HarnessSpec `json:"harnesses"`
+	Bounds      string        `json:"bounds"`
+	Outside     string        `json:"outside"`
+	Stubs       []string      `json:"stubs"`
+	Assumptions []string      `json:"assumptions"`
+}
+
+type KnownFinding struct {
+	Status   string          `json:"status"` // known | fixed
+	Property string          `json:"property"`
+	Harness  string          `json:"harness"`
+	Kind     string          `json:"kind"`
+	ID       string          `json:"id"`
+	Site     string          `json:"site"`
+	What     string          `json:"what"`
+	Commit   string          `json:"commit,omitempty"`
+	Witness  json.RawMessage `json:"witness,omitempty"` // replay vector that must still fail natively
+}
+
+func loadSpecs() (map[string]PropSpec, error) {
+	b, err := os.ReadFile(filepath.Join(verifDir, "harness", "specs.json"))
+	if err != nil {
+		return nil, err
+	}
+	m := map[string]PropSpec{}
+	if err := json.Unmarshal(b, &m); err != nil {
+		return nil, fmt.Errorf("specs.json: %v", err)
+	}
+	return m, nil
+}
+
+func loadKnown() ([]KnownFinding, error) {
+	b, err := os.ReadFile(filepath.Join(verifDir, "known_findings.json"))
+	if err != nil {
+		if os.IsNotExist(err) {
+			return nil, nil
+		}
+		return nil, err
+	}
+	var k []KnownFinding
+	if err := json.Unmarshal(b, &k); err != nil {
+		return nil, fmt.Errorf("known_findings.json: %v", err)
+	}
+	return k, nil
+}
+
+var outcomeRe = regexp.MustCompile(`(?m)^VERIF-OUTCOME(?:\[(\d+)\])?: (.*)$`)
+
+// nativeReplay runs replay files natively (one go test invocation per package) and returns the
+// outcome per file.
+func nativeReplay(key string, files []string, timeoutMs int, race bool) (map[string]string, string, error) {
+	res := map[string]string{}
+	if len(files) == 0 {
+		return res, "", nil
+	}
+	info := pkgTable[key]
+	gen := filepath.Join(verifDir, "out", "gen", key)
+	if _, err := os.Stat(filepath.Join(gen, "overlay.json")); err != nil {
+		if _, _, err := genOverlay(key); err != nil {
+			return nil, "", err
+		}
+	}
+	args := []string{"test", "-tags", "verif", "-vet=off", "-count=1", "-overlay", filepath.Join(gen, "overlay.json"), "-run", "^TestVerifReplay$", "-v",
+		"-timeout", fmt.Sprintf("%ds", 120+len(files)*(timeoutMs/1000+1))}
+	if race {
+		args = append(args, "-race")
+	}
+	args = append(args, "./"+info.Rel)
+	cmd := exec.Command("go", args...)
+	cmd.Dir = repoDir
+	cmd.Env = append(os.Environ(), "GOFLAGS=-mod=mod", "GOPROXY=off", "GOSUMDB=off", "GOTOOLCHAIN=local",
+		"VERIF_REPLAY="+strings.Join(files, ","), "VERIF_REPLAY_TIMEOUT_MS="+strconv.Itoa(timeoutMs))
+	var out bytes.Buffer
+	cmd.Stdout = &out
+	cmd.Stderr = &out
+	err := cmd.Run()
+	txt := out.String()
+	for _, m := range outcomeRe.FindAllStringSubmatch(txt, -1) {
+		i := 0
+		if m[1] != "" {
+			i, _ = strconv.Atoi(m[1])
+		}
+		if i < len(files) {
+			res[files[i]] = strings.TrimSpace(m[2])
+		}
+	}
+	if len(res) == 0 && err != nil {
+		return res, txt, fmt.Errorf("native replay failed: %v", err)
+	}
+	return res, txt, nil
+}
+
+// confirms reports whether a native outcome confirms the finding.
+func confirms(f *eng.Finding, outcome string) bool {
+	switch f.Kind {
+	case "assert":
+		return outcome == "assert:"+f.ID
+	case "panic", "frame":
+		return strings.HasPrefix(outcome, "panic:") || strings.HasPrefix(outcome, "assert:")
+	case "unwound":
+		return outcome == "hang"
+	case "race":
+		return strings.Contains(outcome, "race") || strings.HasPrefix(outcome, "assert:")
+	}
+	return false
+}
+
+type harnessResult struct {
+	Spec     HarnessSpec
+	Stats    eng.Stats
+	Findings []*eng.Finding
+	Samples  []eng.Sample
+	Pass     []eng.Sample
+	TimedOut bool
+	Wall     float64
+	Hits     int64
+	Params   map[string]int
+}
+
+func cmdCheck(args []string) int {
+	if len(args) < 2 {
+		fmt.Fprintln(os.Stderr, "usage: gosym check <Cxx> <quick|thorough> [--replay path]")
+		return 2
+	}
+	prop, tier := args[0], args[1]
+	if len(args) >= 4 && args[2] == "--replay" {
+		return replayOne(prop, args[3])
+	}
+	if tier == "--replay" && len(args) >= 3 {
+		return replayOne(prop, args[2])
+	}
+	t0 := time.Now()
+	specs, err := loadSpecs()
+	if err != nil {
+		fmt.Fprintln(os.Stderr, err)
+		return 2
+	}
+	spec, ok := specs[prop]
+	if !ok {
+		fmt.Fprintf(os.Stderr, "no spec for %s\n", prop)
+		return 2
+	}
+	known, err := loadKnown()
+	if err != nil {
+		fmt.Fprintln(os.Stderr, err)
+		return 2
+	}
+	seed := 0
+	if s := os.Getenv("VERIF_SEED"); s != "" {
+		seed, _ = strconv.Atoi(s)
+	}
+	workers := 16
+	if s := os.Getenv("VERIF_WORKERS"); s != "" {
+		workers, _ = strconv.Atoi(s)
+	}
+	progs := map[string]*eng.Program{}
+	funcs := map[string]bool{}
+	var results []*harnessResult
+	broken := []string{}
+	for _, hs := range spec.Harnesses {
+		if hs.Tier == "thorough" && tier != "thorough" {
+			continue
+		}
+		p := progs[hs.Pkg]
+		if p == nil {
+			var err error
+			p, _, err = loadProgram(hs.Pkg)
+			if err != nil {
+				fmt.Fprintf(os.Stderr, "load %s: %v\n", hs.Pkg, err)
+				return 2
+			}
+			progs[hs.Pkg] = p
+		}
+		for _, m := range hs.Merge {
+			p.MergeFns[m] = true
+		}
+		params := hs.Quick
+		wall := hs.WallS
+		if tier == "thorough" {
+			params = map[string]int{}
+			for k, v := range hs.Quick {
+				params[k] = v
+			}
+			for k, v := range hs.Thorough {
+				params[k] = v
+			}
+			wall = hs.WallST
+		}
+		if params == nil {
+			params = map[string]int{}
+		}
+		cfg := eng.Config{Harness: hs.Name, Solver: hs.Solver, Workers: workers, Budget: hs.Budget, MaxDec: hs.MaxDec, TimeoutMs: hs.TimeoutMs,
+			Params: params, PermuteMaps: hs.Permute, SampleEvery: 37 + int64(seed%11), NoSlice: hs.NoSlice}
+		if cfg.Solver == "" {
+			cfg.Solver = "z3"
+		}
+		if cfg.Budget == 0 {
+			cfg.Budget = 3_000_000
+		}
+		if cfg.MaxDec == 0 {
+			cfg.MaxDec = 4000
+		}
+		if cfg.TimeoutMs == 0 {
+			cfg.TimeoutMs = 20000
+			if tier == "thorough" {
+				cfg.TimeoutMs = 120000
+			}
+		}
+		if wall > 0 {
+			cfg.Deadline = time.Now().Add(time.Duration(wall) * time.Second)
+		}
+		ex, err := eng.NewExplorer(p, cfg)
+		if err != nil {
+			fmt.Fprintln(os.Stderr, err)
+			return 2
+		}
+		th := time.Now()
+		if err := ex.Run(); err != nil {
+			fmt.Fprintf(os.Stderr, "%s: %v\n", hs.Name, err)
+			return 2
+		}
+		hr := &harnessResult{Spec: hs, Stats: ex.Stats, Findings: ex.SortedFindings(), Samples: ex.Samples, Pass: ex.PassModels, TimedOut: ex.TimedOut,
+			Wall: time.Since(th).Seconds(), Hits: ex.CacheHits(), Params: params}
+		results = append(results, hr)
+		fmt.Fprintf(os.Stderr, "[%s] %s %v: %.1fs paths=%d completed=%d infeasible=%d panics=%d unwound=%d unsupported=%d asserts=%d (unsat %d, triv %d, sat %d, unk %d) queries=%d findings=%d timedout=%v\n",
+			prop, hs.Name, params, hr.Wall, ex.Stats.Paths, ex.Stats.Completed, ex.Stats.Infeasible, ex.Stats.Panics, ex.Stats.Unwound, ex.Stats.Unsupported,
+			ex.Stats.Asserts, ex.Stats.AssertUnsat, ex.Stats.AssertTriv, ex.Stats.AssertSat, ex.Stats.AssertUnk, ex.Stats.Queries, len(hr.Findings), ex.TimedOut)
+		for k, v := range ex.Stats.Unsupp {
+			fmt.Fprintf(os.Stderr, "    unsupported x%d: %s\n", v, k)
+		}
+		for k, v := range ex.Stats.UnwoundMsgs {
+			fmt.Fprintf(os.Stderr, "    unwound x%d: %s\n", v, k)
+		}
+		if ex.Stats.Completed == 0 {
+			broken = append(broken, hs.Name+": no path completed (vacuous harness)")
+		}
+		if ex.Stats.SolverErrors > 0 {
+			broken = append(broken, fmt.Sprintf("%s: %d solver errors", hs.Name, ex.Stats.SolverErrors))
+		}
+	}
+	for _, p := range progs {
+		for f := range p.FuncsEncoded {
+			funcs[f] = true
+		}
+	}
+
+	// ---- native replay of findings, known witnesses and passing samples ----
+	repDir := filepath.Join(verifDir, "out", "replays", prop)
+	os.RemoveAll(repDir)
+	os.MkdirAll(repDir, 0o755)
+	type pending struct {
+		f     *eng.Finding
+		hr    *harnessResult
+		file  string
+		known *KnownFinding
+		pass  bool
+		kw    *KnownFinding // known-witness replay
+	}
+	byPkg := map[string][]*pending{}
+	n := 0
+	for _, hr := range results {
+		for _, f := range hr.Findings {
+			if f.Kind == "engine" {
+				broken = append(broken, fmt.Sprintf("%s: engine error: %s", hr.Spec.Name, f.Msg))
+				continue
+			}
+			if f.Kind == "unwound" && !hr.Spec.Hang {
+				continue // reported as incomplete coverage below
+			}
+			n++
+			file := filepath.Join(repDir, fmt.Sprintf("%s-%d.json", hr.Spec.Name, n))
+			b, _ := json.MarshalIndent(f, "", " ")
+			os.WriteFile(file, b, 0o644)
+			byPkg[hr.Spec.Pkg] = append(byPkg[hr.Spec.Pkg], &pending{f: f, hr: hr, file: file})
+		}
+		// passing samples for validation of the encoding
+		for i, s := range hr.Pass {
+			if i >= 6 {
+				break
+			}
+			n++
+			file := filepath.Join(repDir, fmt.Sprintf("%s-pass-%d.json", hr.Spec.Name, n))
+			f := &eng.Finding{Harness: hr.Spec.Name, Kind: "pass", Inputs: s.Inputs, Params: hr.Params}
+			b, _ := json.MarshalIndent(f, "", " ")
+			os.WriteFile(file, b, 0o644)
+			byPkg[hr.Spec.Pkg] = append(byPkg[hr.Spec.Pkg], &pending{f: f, hr: hr, file: file, pass: true})
+		}
+	}
+	// known witnesses for this property
+	for i := range known {
+		k := &known[i]
+		if k.Property != prop || k.Status != "known" || len(k.Witness) == 0 {
+			continue
+		}
+		var pkg string
+		for _, hs := range spec.Harnesses {
+			if hs.Name == k.Harness {
+				pkg = hs.Pkg
+			}
+		}
+		if pkg == "" {
+			continue
+		}
+		n++
+		file := filepath.Join(repDir, fmt.Sprintf("known-%d.json", n))
+		os.WriteFile(file, k.Witness, 0o644)
+		byPkg[pkg] = append(byPkg[pkg], &pending{file: file, kw: k})
+	}
+	validated, spurious, passMismatch := 0, 0, 0
+	knownStillFails := map[*KnownFinding]bool{}
+	var violations []*pending
+	var knownHits []*pending
+	var hangUnconfirmed int
+	for pkg, ps := range byPkg {
+		var files []string
+		race := false
+		for _, p := range ps {
+			files = append(files, p.file)
+			if p.hr != nil && p.hr.Spec.Race {
+				race = true
+			}
+		}
+		outs, txt, err := nativeReplay(pkg, files, 10000, race)
+		if err != nil {
+			fmt.Fprintf(os.Stderr, "native replay (%s) failed: %v\n%s\n", pkg, err, tail(txt, 40))
+			broken = append(broken, "native replay failed for package "+pkg)
+			continue
+		}
+		for _, p := range ps {
+			o := outs[p.file]
+			switch {
+			case p.kw != nil:
+				if o != "pass" && o != "skip" && o != "" {
+					knownStillFails[p.kw] = true
+				}
+			case p.pass:
+				if o == "pass" {
+					validated++
+				} else {
+					passMismatch++
+					fmt.Fprintf(os.Stderr, "ENCODING MISMATCH: %s predicted pass, native outcome %q (%s)\n", p.f.Harness, o, p.file)
+				}
+			default:
+				if confirms(p.f, o) {
+					validated++
+					// known?
+					var kf *KnownFinding
+					for i := range known {
+						k := &known[i]
+						if k.Status == "known" && k.Property == prop && k.Harness == p.f.Harness && k.Kind == p.f.Kind && k.ID == p.f.ID && k.Site == p.f.Site {
+							kf = k
+						}
+					}
+					if kf != nil {
+						p.known = kf
+						knownHits = append(knownHits, p)
+					} else {
+						violations = append(violations, p)
+					}
+				} else if p.f.Kind == "unwound" {
+					hangUnconfirmed++
+					fmt.Fprintf(os.Stderr, "unwound path not confirmed as a hang natively (outcome %q): bound too small? %s\n", o, p.f.Msg)
+				} else {
+					spurious++
+					fmt.Fprintf(os.Stderr, "SPURIOUS: %s %s/%s at %s: native outcome %q (%s)\n", p.f.Harness, p.f.Kind, p.f.ID, p.f.Site, o, p.file)
+				}
+			}
+		}
+	}
+	if passMismatch > 0 {
+		broken = append(broken, fmt.Sprintf("%d passing path models did not pass natively (encoding mismatch)", passMismatch))
+	}
+
+	// ---- evidence ----
+	var states, transitions, asserts, unsat, sat, unk, triv, unsupp, unwound, infeasible, steps, hits int64
+	var solverTime float64
+	var samples []interface{}
+	var hdetail []map[string]interface{}
+	anyTimedOut := false
+	for _, hr := range results {
+		st := hr.Stats
+		states += st.Completed
+		transitions += st.Queries
+		asserts += st.Asserts
+		unsat += st.AssertUnsat
+		sat += st.AssertSat
+		unk += st.AssertUnk
+		triv += st.AssertTriv
+		unsupp += st.Unsupported
+		unwound += st.Unwound
+		infeasible += st.Infeasible
+		steps += st.Steps
+		hits += hr.Hits
+		solverTime += st.SolverTime.Seconds()
+		anyTimedOut = anyTimedOut || hr.TimedOut
+		for i, s := range hr.Samples {
+			if i < 2 {
+				samples = append(samples, s)
+			}
+		}
+		hdetail = append(hdetail, map[string]interface{}{
+			"harness": hr.Spec.Name, "package": hr.Spec.Pkg, "what": hr.Spec.What, "params": hr.Params, "solver": orDefault(hr.Spec.Solver, "z3"),
+			"paths": st.Paths, "completed": st.Completed, "infeasible": st.Infeasible, "panic_paths": st.Panics, "unwound_paths": st.Unwound,
+			"unsupported_paths": st.Unsupported, "assertion_obligations": st.Asserts, "assert_unsat": st.AssertUnsat, "assert_trivial": st.AssertTriv,
+			"assert_sat": st.AssertSat, "assert_inconclusive": st.AssertUnk, "solver_queries": st.Queries, "cache_hits": hr.Hits,
+			"solver_time_s": round1(st.SolverTime.Seconds()), "wall_s": round1(hr.Wall), "instructions": st.Steps, "max_decisions": st.MaxDecisions,
+			"reach": st.Reach, "unsupported": st.Unsupp, "unwound": st.UnwoundMsgs, "exhausted": !hr.TimedOut,
+		})
+	}
+	for _, p := range violations {
+		samples = append(samples, map[string]interface{}{"violation": p.f})
+	}
+	if len(samples) == 0 {
+		samples = append(samples, map[string]interface{}{"note": "no completed path"})
+	}
+	var fl []string
+	for f := range funcs {
+		if strings.Contains(f, "jsonata-go") && !strings.Contains(f, "verif") && !strings.Contains(f, "VerifH_") {
+			fl = append(fl, f)
+		}
+	}
+	sort.Strings(fl)
+	var knownLines []string
+	for _, p := range knownHits {
+		knownLines = append(knownLines, fmt.Sprintf("KNOWN-FINDING: property=%s %s", prop, p.known.What))
+	}
+	knownLines = uniq(knownLines)
+	cov := map[string]interface{}{
+		"states": states, "transitions": transitions, "traces_validated_against_impl": validated, "samples": samples,
+		"exhaustive":            !anyTimedOut && unwound == 0 && unsupp == 0,
+		"functions_encoded":     fl,
+		"n_functions_encoded":   len(fl),
+		"bounds":                spec.Bounds,
+		"outside_bounds":        spec.Outside,
+		"stubs":                 spec.Stubs,
+		"harnesses":             hdetail,
+		"assertion_obligations": asserts, "discharged_unsat": unsat, "discharged_by_folding": triv, "sat": sat, "inconclusive": unk,
+		"infeasible_paths": infeasible, "unsupported_paths": unsupp, "unwound_paths": unwound, "spurious_counterexamples": spurious,
+		"hang_candidates_unconfirmed": hangUnconfirmed,
+		"solver_time_s":               round1(solverTime), "instructions_interpreted": steps, "query_cache_hits": hits,
+		"known_findings_hit": knownLines,
+		"explanation":        "states = symbolic paths completed; transitions = SMT queries discharged (feasibility + assertion); every assertion obligation was decided by the solver (unsat) or by constant folding on that path",
+	}
+	ev := map[string]interface{}{
+		"property_id": prop, "tier": tier, "seed": seed, "level": "model_checking", "coverage": cov,
+		"assumptions": spec.Assumptions, "wall_s": round1(time.Since(t0).Seconds()), "violations": len(violations),
+	}
+	os.MkdirAll(filepath.Join(verifDir, "evidence"), 0o755)
+	eb, _ := json.MarshalIndent(ev, "", " ")
+	if err := os.WriteFile(filepath.Join(verifDir, "evidence", prop+".json"), eb, 0o644); err != nil {
+		fmt.Fprintln(os.Stderr, err)
+		return 2
+	}
+
+	// ---- verdict ----
+	for _, l := range knownLines {
+		fmt.Println(l)
+	}
+	for i := range known {
+		k := &known[i]
+		if k.Property == prop && k.Status == "known" && len(k.Witness) > 0 && !knownStillFails[k] {
+			fmt.Fprintf(os.Stderr, "note: known finding %q no longer fails natively on its witness\n", k.What)
+		}
+	}
+	if len(violations) > 0 {
+		// keep replay files of violations in a stable place
+		for _, p := range violations {
+			fmt.Printf("VIOLATION property=%s replay=%s\n", prop, p.file)
+			fmt.Fprintf(os.Stderr, "  %s %s/%s at %s: %s\n", p.f.Harness, p.f.Kind, p.f.ID, p.f.Site, p.f.Msg)
+		}
+		return 1
+	}
+	if len(broken) > 0 {
+		for _, b := range broken {
+			fmt.Fprintf(os.Stderr, "BROKEN: %s\n", b)
+		}
+		return 2
+	}
+	fmt.Printf("OK property=%s tier=%s paths=%d queries=%d obligations=%d (unsat %d, folded %d, inconclusive %d) unsupported=%d unwound=%d validated=%d wall=%.0fs\n",
+		prop, tier, states, transitions, asserts, unsat, triv, unk, unsupp, unwound, validated, time.Since(t0).Seconds())
+	return 0
+}
+
+func orDefault(s, d string) string {
+	if s == "" {
+		return d
+	}
+	return s
+}
+
+func round1(f float64) float64 { return float64(int(f*10+0.5)) / 10 }
+
+func uniq(in []string) []string {
+	seen := map[string]bool{}
+	var out []string
+	for _, s := range in {
+		if !seen[s] {
+			seen[s] = true
+			out = append(out, s)
+		}
+	}
+	return out
+}
+
+func tail(s string, n int) string {
+	lines := strings.Split(s, "\n")
+	if len(lines) > n {
+		lines = lines[len(lines)-n:]
+	}
+	return strings.Join(lines, "\n")
+}
+
+// replayOne replays a stored counterexample natively and reports the outcome.
+func replayOne(prop, path string) int {
+	b, err := os.ReadFile(path)
+	if err != nil {
+		fmt.Fprintln(os.Stderr, err)
+		return 2
+	}
+	var f eng.Finding
+	if err := json.Unmarshal(b, &f); err != nil {
+		fmt.Fprintln(os.Stderr, err)
+		return 2
+	}
+	specs, err := loadSpecs()
+	if err != nil {
+		fmt.Fprintln(os.Stderr, err)
+		return 2
+	}
+	pkg := ""
+	for _, sp := range specs {
+		for _, hs := range sp.Harnesses {
+			if hs.Name == f.Harness {
+				pkg = hs.Pkg
+			}
+		}
+	}
+	if pkg == "" {
+		fmt.Fprintf(os.Stderr, "harness %s not in specs\n", f.Harness)
+		return 2
+	}
+	if _, _, err := genOverlay(pkg); err != nil {
+		fmt.Fprintln(os.Stderr, err)
+		return 2
+	}
+	outs, txt, err := nativeReplay(pkg, []string{path}, 10000, false)
+	if err != nil {
+		fmt.Fprintln(os.Stderr, err, tail(txt, 30))
+		return 2
+	}
+	o := outs[path]
+	fmt.Printf("native outcome: %s\n", o)
+	if f.Kind == "pass" {
+		if o == "pass" {
+			return 0
+		}
+		return 1
+	}
+	if confirms(&f, o) {
+		fmt.Printf("VIOLATION property=%s replay=%s\n", prop, path)
+		return 1
+	}
+	return 0
+}
+
+func cmdReplay(args []string) int {
+	if len(args) < 2 {
+		fmt.Fprintln(os.Stderr, "usage: gosym replay <Cxx> <path>")
+		return 2
+	}
+	return replayOne(args[0], args[1])
+}
